@@ -10,6 +10,7 @@ from __future__ import annotations
 
 import io
 import json
+import struct as _st
 import random
 from pathlib import Path
 from typing import Any
@@ -420,11 +421,69 @@ def main(tier_: str) -> int:
                         lines.append({'ev': 'field', 'box': lb.name, 'field': fname, 'value_class': f'bytes of {f.name} ({n} mutations)' +
                                       (f' failing offset:value {bad[:6]}' if bad else ''), 'eq': 0 if bad else 1})
         out.coverage['legal_byte_mutations'] = nmut
+        # ---- avcC: the profile decides whether the High-profile trailer (chroma format, bit depths, SPS extensions) follows the
+        # PPS list (ISO/IEC 14496-15 5.3.3.1.2).  The profile byte of every stored avcC is set to every profile of its own class
+        # (with / without trailer) inside its whole init segment, which must still round-trip.
+        EXT = (100, 110, 122, 244, 44, 83, 86, 118, 128, 134, 135, 138, 139)
+        PLAIN = (66, 77, 88)
+        seen_avcc: set[bytes] = set()
+        navcc = 0
+        for f in files:
+            data = f.read_bytes()
+            i = data.find(b'avcC')
+            if i < 4:
+                continue
+            try:
+                pw0 = Parsed(data)
+            except Exception:      # noqa: BLE001
+                continue
+            mv = next((b for b in pw0.top if b.name == 'moov'), None)
+            if mv is None or not (mv.pos < i < mv.end):
+                continue
+            size = _st.unpack('>I', data[i - 4:i])[0]
+            box = data[i - 4:i - 4 + size]
+            if box in seen_avcc:
+                continue
+            seen_avcc.add(box)
+            q = 14
+            try:
+                for _ in range(box[13] & 0x1F):
+                    q += 2 + _st.unpack('>H', box[q:q + 2])[0]
+                npps = box[q]
+                q += 1
+                for _ in range(npps):
+                    q += 2 + _st.unpack('>H', box[q:q + 2])[0]
+            except Exception:      # noqa: BLE001
+                continue
+            trailer = size - q
+            base = data[:mv.end]
+            for prof in (EXT if trailer >= 4 else PLAIN if trailer == 0 else ()):
+                m = bytearray(base)
+                m[i - 4 + 9] = prof
+                raw = bytes(m)
+                ok = 1
+                why = ''
+                for lz in (False, True):
+                    try:
+                        w = load(raw, 'rw', lz)
+                        if lz:
+                            for a in w.children:
+                                walk_classes(a)
+                                a.toJSON(pure=True)          # touches every lazily loaded box
+                        ob = io.BytesIO()
+                        w.encode(ob)
+                        if ob.getvalue() != raw:
+                            ok, why = 0, f'{"lazy" if lz else "eager"}: {len(raw)} bytes in, {len(ob.getvalue())} out'
+                    except Exception as e:      # noqa: BLE001
+                        ok, why = 0, f'{type(e).__name__}: {e}'[:100]
+                navcc += 1
+                lines.append({'ev': 'field', 'box': 'avcC', 'field': 'AVCProfileIndication', 'value_class': f'{prof} in {f.name} (trailer {trailer} bytes)' +
+                              (f' {why}' if why else ''), 'eq': ok})
+        out.coverage['avcc_profiles'] = navcc
         # ---- legal structural edits written into stored trees (byte level) -----------------------------
         # an empty (header-only, 8-byte) box - free, skip, an unknown 4CC, an empty udta - is a legal child of any container;
         # it is inserted as first / last child of every container of every stored moov, the sizes of the ancestors adjusted,
         # and the result (still a well-formed tree by the independent walker) must round-trip
-        import struct as _st
         seen_moov: set[bytes] = set()
         nstruct = 0
         for f in files:
